@@ -5,12 +5,15 @@ import (
 	"context"
 	"fmt"
 	errorsv3 "gopkg.in/hedzr/errors.v3"
+	"io"
 	"log"
 	logslog "log/slog"
+	"reflect"
 	"runtime"
 	"strconv"
 	"strings"
 	"testing"
+	"time"
 
 	"github.com/hedzr/logg/slog"
 	"github.com/hedzr/logg/slog/verifharness/vlib"
@@ -333,4 +336,36 @@ func TestMatrix(t *testing.T) {
 		}
 	}
 	vlib.Exhaustive(fmt.Sprintf("%d entry points x 3 formats x {root,child,default} x skip 0..4 x wrapper depth {skip,4} x {noinline, inlinable} x {WithSkip,SetSkip} = %d cells (this build's inlining mode)", len(sites), n))
+}
+
+// TestManyCallSites: attribution must not depend on how many different call sites the process has seen.
+// Every site of the table logs once, then 6000 records with 6000 distinct (valid) program counters are
+// handed to WriteThru, then every site logs again - and must still be attributed to its own statement.
+func TestManyCallSites(t *testing.T) {
+	check := func() {
+		for si := range sites {
+			for _, f := range formats {
+				run(t, "TestManyCallSites", scenario{Site: si, Format: f, Kind: "root", Skip: 0, SkipHow: "WithSkip", Depth: 0, Privacy: true, PrevSkip: -1, Repeat: 2})
+			}
+		}
+	}
+	check()
+	func() {
+		defer vlib.Canon()()
+		slog.SetFlags(vlib.BaseFlags | slog.Lcaller)
+		lg := slog.New("manysites").SetWriter(io.Discard).SetErrorWriter(io.Discard).SetLevel(slog.AlwaysLevel).SetJSONMode(true)
+		base := reflect.ValueOf(wrapNoInline).Pointer()
+		for i := 0; i < 6000; i++ {
+			func() {
+				defer func() {
+					if p := recover(); p != nil {
+						t.Fatalf("C14 record #%d of a run of records from distinct call sites (pc %#x) panicked: %v", i, base+uintptr(i), p)
+					}
+				}()
+				lg.WriteThru(context.Background(), slog.InfoLevel, time.Unix(1700000000, 0), base+uintptr(i), "another call site", nil)
+			}()
+		}
+	}()
+	check()
+	vlib.Exhaustive(fmt.Sprintf("%d sites x 3 formats, each twice, before and after 6000 records from distinct program counters", len(sites)))
 }
